@@ -36,12 +36,13 @@ import (
 
 // Call is one unit of work for a worker (and the `input` of failures, so that replays can rerun it).
 type Call struct {
-	Kind  string  `json:"kind"` // call | op | tpl
-	Fn    string  `json:"fn,omitempty"`
-	Args  []VSpec `json:"args,omitempty"`
-	Tpl   string  `json:"tpl,omitempty"`
-	Coq   string  `json:"coq,omitempty"`   // expr: the same tree as a term of the model's expr type
-	Args2 []VSpec `json:"args2,omitempty"` // scale: the same tuple with every number written at another scale
+	Kind  string   `json:"kind"` // call | op | tpl
+	Fn    string   `json:"fn,omitempty"`
+	Args  []VSpec  `json:"args,omitempty"`
+	Tpl   string   `json:"tpl,omitempty"`
+	Coq   string   `json:"coq,omitempty"`   // expr: the same tree as a term of the model's expr type
+	Args2 []VSpec  `json:"args2,omitempty"` // scale: the same tuple with every number written at another scale
+	Env   *EnvSpec `json:"env,omitempty"`   // the environment of the call (nil: the test session's)
 }
 
 func (c *Call) key() string {
@@ -52,6 +53,9 @@ func (c *Call) key() string {
 		return "expr:" + c.Tpl
 	}
 	b, _ := json.Marshal(c.Args)
+	if c.Env != nil {
+		return "env:" + c.Env.key() + ":" + c.Fn + string(b)
+	}
 	if c.Kind == "scale" {
 		return "scale:" + c.Fn + string(b)
 	}
@@ -70,6 +74,10 @@ func (c *Call) brief() string {
 			b, _ := json.Marshal(a)
 			parts[i] = abbreviate(string(b), 60)
 		}
+	}
+	if c.Env != nil {
+		eb, _ := json.Marshal(c.Env)
+		return c.Fn + "(" + strings.Join(parts, ", ") + ") in environment " + string(eb)
 	}
 	return c.Fn + "(" + strings.Join(parts, ", ") + ")"
 }
@@ -182,6 +190,7 @@ func main() {
 		tasks = append(tasks, corrTasks(r.Fork("corr"), o)...)
 		tasks = append(tasks, exprTasks(r.Fork("expr"), o.Count(1500, 40000))...)
 		tasks = append(tasks, scaleTasks(r.Fork("scale"), o.Count(3000, 60000))...)
+		tasks = append(tasks, envTasks(r.Fork("env"), o.Count(6000, 150000))...)
 	}
 
 	runTasks(tasks, nWorkers, lim, res)
@@ -246,7 +255,7 @@ func runTasks(tasks []*task, nWorkers int, lim limits, res *hx.Result) {
 						cr.skipped = true
 						continue
 					}
-					req := &Req{ID: id, Kind: c.Kind, Fn: c.Fn, Args: c.Args, Tpl: c.Tpl, Args2: c.Args2, Full: t.name == "corr" || t.name == "replay" || t.name == "scale"}
+					req := &Req{ID: id, Kind: c.Kind, Fn: c.Fn, Args: c.Args, Tpl: c.Tpl, Args2: c.Args2, Env: c.Env, Full: t.name == "corr" || t.name == "replay" || t.name == "scale"}
 					cr.resp, cr.oc, cr.detail = rn.do(req)
 					if cr.oc == ocInternal {
 						// one retry with a fresh worker
@@ -361,7 +370,12 @@ func judge(cr *callResult, res *hx.Result) {
 		}
 		if out.St == "panic" {
 			res.Dist("outcome=panic")
-			res.Fail("panic:"+fnLabel+":"+messageKind(out.Msg), c, fmt.Sprintf("Go panic %q in %s of %s", out.Msg, entry, c.brief()))
+			class := "panic:" + fnLabel + ":" + messageKind(out.Msg)
+			if c.Env != nil {
+				// which function, in which kind of environment
+				class = "panic:" + kindLabel + ":" + c.Fn + ":environment-" + c.Env.aspect()
+			}
+			res.Fail(class, c, fmt.Sprintf("Go panic %q in %s of %s", out.Msg, entry, c.brief()))
 			nontrivial = true
 			continue
 		}
